@@ -11,6 +11,7 @@ brightness weights, and that each inverse direction is literally
 -/
 import Pastel.RealInst
 import Pastel.Model.Color
+import Pastel.Lemmas.HslOutside
 
 namespace Pastel.C04
 open Pastel
@@ -134,5 +135,27 @@ theorem xyz_matrices_near_inverse :
     |(-0.9689) * 0.3576 + 1.8758 * 0.7152 + 0.0415 * 0.1192 - (1 : ℝ)| < 1.2e-4 ∧
     |0.0557 * 0.1805 - 0.2040 * 0.0722 + 1.0570 * 0.9505 - (1 : ℝ)| < 1.2e-4 := by
   refine ⟨?_, ?_, ?_⟩ <;> (rw [abs_lt]; constructor <;> norm_num)
+
+/-! ### The inverse clause for HSL coordinates outside their ranges -/
+
+/-- **HSL lightness far outside `[0,1]`** (exact arithmetic; saturation in `[0,1]`, every hue, every
+lightness, every alpha): the bytes of `from_hsla(h, s, l, a)`, which clamps the lightness *first*,
+are the bytes of the hexcone inverse evaluated on the coordinates as given, followed by clamping
+each channel to `[0,1]` and rounding — the form C04 states. -/
+theorem hsl_lightness_outside_is_transform_then_clamp (h s l a : ℝ) (hs0 : 0 ≤ s) (hs1 : s ≤ 1) :
+    bytes (fromHsla h s l a) =
+      bytes { hue := hueFrom h, sat := s, light := l, alpha := (fromHsla h s l a).alpha } :=
+  hsl_lightness_outside h s l a hs0 hs1
+
+/-- …and that for a **saturation** outside `[0,1]` the same statement is *false* of the code and of
+the model alike (kernel-evaluated on IEEE floats): `from_hsla(30, 2, 0.25)` is `rgb(128, 64, 0)`,
+the hexcone inverse on the coordinates as given followed by channel clamping is `rgb(191, 64, 0)`.
+This is the open known finding of C04 (the constructor clamps the saturation before the
+transform); `hsl_lightness_outside_is_transform_then_clamp` is the part that holds. -/
+theorem hsl_saturation_clamped_first :
+    (let c := toRgba8 (fromHsla (30.0 : Float) 2.0 0.25 1.0); (c.r.toNat, c.g.toNat, c.b.toNat)) = (128, 64, 0) ∧
+    (let c := toRgba8 ({ hue := hueFrom (30.0 : Float), sat := 2.0, light := 0.25, alpha := 1.0 } : Color Float);
+      (c.r.toNat, c.g.toNat, c.b.toNat)) = (191, 64, 0) := by
+  decide +kernel
 
 end Pastel.C04
